@@ -154,6 +154,9 @@ def engine(kind):
         kw["error_coercer"] = none_coercer
     elif kind == "returning-empty-dict":
         kw["error_coercer"] = empty_coercer
+    # the three documented ways of building an engine, spread over the coercer kinds
+    kw["route"] = {"recording": "create_engine", "replacing": "ctor", "suspending": "cook", "annotating": "ctor", "returning-none": "cook",
+                   "returning-empty-dict": "create_engine"}.get(kind, "ctor")
     return explore.engine_for(("C18", kind), SCHEMA, directive_impl={"rej": RejDirective()}, **kw)
 
 
